@@ -9,6 +9,29 @@ Theorem C15_map_order : forall (A : Type) (l l' : list (str * A)),
 Proof. exact sort_by_key_perm. Qed.
 Print Assumptions C15_map_order.
 
+(* The same for ANY comparison of keys that is total, transitive and antisymmetric.  Antisymmetry is
+   what makes the output a function of the collection: it is used in exactly one place, the exchange
+   lemma insert_comm (two different keys cannot each be below the other). *)
+Theorem C15_sort_order_independent_generic : forall (A : Type) (le : str -> str -> bool),
+  (forall a b, le a b = true \/ le b a = true) ->
+  (forall a b c, le a b = true -> le b c = true -> le a c = true) ->
+  (forall a b, le a b = true -> le b a = true -> a = b) ->
+  forall l l' : list (str * A), Permutation l l' -> NoDup (map fst l) -> sort_with le l = sort_with le l'.
+Proof. exact sort_with_perm. Qed.
+Print Assumptions C15_sort_order_independent_generic.
+
+(* ... and the hypothesis cannot be dropped: under a coarser key (names compared without regard to
+   case: total, transitive, not antisymmetric) two different names that are equal up to case come out
+   in arrival order, i.e. in the order the Go map happened to iterate *)
+Theorem C15_coarse_key_refuted :
+  (forall a b, str_le_ci a b = true \/ str_le_ci b a = true) /\
+  (forall a b c, str_le_ci a b = true -> str_le_ci b c = true -> str_le_ci a c = true) /\
+  (let l1 := [(s "X-Request-Id", 1%nat); (s "X-Request-ID", 2%nat); (s "Accept", 3%nat)] in
+   let l2 := [(s "X-Request-ID", 2%nat); (s "X-Request-Id", 1%nat); (s "Accept", 3%nat)] in
+   Permutation l1 l2 /\ NoDup (map fst l1) /\
+   sort_with str_le_ci l1 <> sort_with str_le_ci l2 /\ sort_by_key l1 = sort_by_key l2).
+Proof. exact (conj str_le_ci_total (conj str_le_ci_trans coarse_key_sort_depends_on_arrival_order)). Qed.
+
 (* the order lemmas the sort relies on, for all byte strings *)
 Theorem C15_byte_order_total_antisymmetric_transitive :
   (forall a b, str_le a b = true \/ str_le b a = true) /\
